@@ -4,6 +4,6 @@ From Coq Require Import ExtrOcamlBasic.
 From Flatcc.Printer Require Import FlushModel PrintOps.
 Extraction Language OCaml.
 Extraction "../ocaml/printer/model.ml"
-  mkcfg mkocfg mkflags init run step observe text chk wfv is_fieldlike root_ops no_perr
+  mkcfg mkocfg mkflags init run_f observe text chk wfv is_fieldlike root_ops no_perr
   cfg_fixed cfg_current ocfg_fixed ocfg_current
   PRINT_RESERVE PRINT_NUM_WRITE_MAX PRINT_MAX_LEVELS.
